@@ -675,6 +675,10 @@ func (s *Session) writeChunk(b []byte) (n int, err error) {
 		select {
 		case <-s.sendQueue.chanEmptyEvent:
 			shouldReturn = true
+		case <-timeC:
+			// The data is already in the send queue.
+			// Stop waiting when the write deadline is reached.
+			shouldReturn = true
 		// do not consume s.sendQueue.chanNotEmptyEvent,
 		// because it is used to drive the output loop.
 		default:
